@@ -147,3 +147,39 @@ Theorem C02_any_blank_separator_refuted :
     sep_start y /\ lex_token st nlb b (firstn n t ++ y) <> Some (n, ty, a).
 Proof. exact lex_token_stable_any_blank_refuted. Qed.
 
+(* the grammar model: the parser only RE-TYPES tokens within their lexical class (IdentifierOrKeyword -> Identifier | Keyword; the kind
+   argument of In/Const/Var/Equal/Caret) and never changes their number: it cannot turn a comment into code or the reverse *)
+From PasfmtVerif Require Import Model.ParserGrammar Proofs.ParserKernelProofs Proofs.ParserGrammarProofs Proofs.ParserGrammarRunProofs Proofs.ParserGrammarTypesProofs Proofs.ParserGrammarConsumedProofs Proofs.ParserGrammarCoverProofs Proofs.ParserGrammarEofProofs.
+Theorem C02_parser_only_retypes :
+  forall (pass : list nat) (wsnl : list bool) (fuel : nat) (c : call) (s : pstate pass),
+  Forall2 retype_ok (ps_toks pass s) (ps_toks pass (run pass wsnl fuel c s)).
+Proof. exact run_retype_ok. Qed.
+
+Theorem C02_parser_keeps_token_count :
+  forall (toks : list RawTokenType) (wsnl : list bool) (passes : list (list nat)),
+  length (r_toks (parse_file_with toks wsnl passes)) = length toks.
+Proof. exact parse_file_token_count. Qed.
+
+Theorem C02_parser_final_token_types :
+  forall (toks : list RawTokenType) (wsnl : list bool) (passes : list (list nat)) 
+    (i : nat) (t : RawTokenType),
+  nth_error toks i = Some t ->
+  exists ty : TokenType,
+    nth_error (parsed_token_types (parse_file_with toks wsnl passes)) i = Some ty /\
+    tt_retyped t ty /\ tt_class_of ty = lex_class_of t.
+Proof. exact parse_file_token_types. Qed.
+
+Theorem C02_retype_keeps_lexical_class :
+  forall a b : RawTokenType, retype_ok a b -> lex_class_of a = lex_class_of b.
+Proof. exact retype_ok_class. Qed.
+
+Theorem C02_retype_fixes_other_kinds :
+  forall a b : RawTokenType,
+  retype_ok a b ->
+  match a with
+  | RTT_Op _ | RTT_Identifier | RTT_IdentifierOrKeyword _ | RTT_Keyword _ => True
+  | _ => b = a
+  end.
+Proof. exact retype_ok_fixed. Qed.
+
+
